@@ -19,7 +19,7 @@ from ..common import Check, log
 def run_ctxmc(variant, args, timeout=300):
     out = build.build_variant(variant)
     e = build.env_for(variant)
-    p = subprocess.run([os.path.join(out, "harness", "ctxmc")] + [str(a) for a in args], env=e, stdout=subprocess.PIPE,
+    p = subprocess.run([os.path.join(out, "harness", "ctxmc")] + [str(a) for a in args], env=e, stdout=subprocess.PIPE, preexec_fn=common.die_with_parent,
                        stderr=subprocess.STDOUT, stdin=subprocess.DEVNULL, timeout=timeout)
     return p.returncode, p.stdout.decode("utf-8", "replace")
 
